@@ -668,6 +668,10 @@ func c19coinSetCase(c *vf.Ctx, i int) {
 		return
 	}
 	nops := r.Range(1, 48)
+	if i%300 == 298 {
+		nops = 4000 // a long-lived set: drift only shows after many operations
+		c.Inc("CoinSet/long_histories_4000_ops")
+	}
 	pushBias := r.Range(1, 5) // of 6
 	var onEmpty, pushes, removes, dupPush int64
 	for op := 0; op < nops; op++ {
